@@ -284,6 +284,12 @@ func catalogue(target string) []program {
 			{{o("store", 1, 5), o("store", 2, 6), o("range")}, {o("store", 3, 7), o("delete", 1)}},
 			{{o("store", 1, 5), o("load", 9)}, {o("load", 9), o("load", 1)}, {o("store", 2, 2)}},
 			{{o("store", 1, 5), o("load", 9), o("delete", 1), o("store", 2, 2), o("store", 1, 9)}, {o("load", 1)}},
+			// three goroutines with one operation each: two complete operations fit between two steps of the first one within 2 preemptions
+			{{o("store", 1, 5), o("load", 9), o("delete", 1), o("loadorstore", 1, 8)}, {o("store", 1, 6)}, {o("delete", 1)}},
+			{{o("store", 1, 5), o("load", 9), o("loadorstore", 1, 8)}, {o("delete", 1)}, {o("store", 1, 7)}},
+			{{o("store", 1, 5), o("load", 9), o("delete", 1), o("store", 1, 8)}, {o("loadorstore", 1, 6)}, {o("delete", 1)}},
+			{{o("store", 1, 5), o("load", 9), o("loadanddelete", 1)}, {o("store", 1, 6)}, {o("loadanddelete", 1)}},
+			{{o("store", 1, 5), o("store", 2, 6), o("load", 9), o("load", 9), o("range")}, {o("delete", 1)}, {o("store", 1, 7)}},
 		}
 	case "set":
 		return []program{
@@ -293,6 +299,8 @@ func catalogue(target string) []program {
 			{{o("add", 1), o("add", 2), o("len")}, {o("remove", 1), o("add", 3)}},
 			{{o("addset", 1, 2)}, {o("addset", 2, 3)}, {o("has", 2)}},
 			{{o("add", 1), o("has", 9), o("remove", 1), o("add", 2)}, {o("add", 1), o("remove", 1)}},
+			{{o("add", 1), o("has", 9), o("remove", 1), o("add", 1)}, {o("add", 1)}, {o("remove", 1)}},
+			{{o("add", 1), o("has", 9), o("add", 1)}, {o("remove", 1)}, {o("add", 1)}},
 		}
 	case "km":
 		return []program{
